@@ -11,8 +11,19 @@
 (*   Array3DAccessor<in,out>(A).get(c) = (out) A.get(c)                        *)
 (*   MultiSliceArray3D(S).get(x,y,z)   = S[z].get(x, y, 0), size (sx, sy, |S|) *)
 (*   getValueRange(lo, hi)             = [min, max] of the values in [lo, hi)  *)
-(* Coordinates outside size() are only given a meaning for ActualArray3D       *)
-(* (clamped to the nearest cell); for the adaptors they are left open.         *)
+(* Coordinates OUTSIDE size(): ActualArray3D clamps to the nearest cell; the    *)
+(* adaptors do what their definition in the code says (second half of the      *)
+(* module, expression trees and GetE):                                         *)
+(*   - SubBoxArray3D and Array3DAccessor do not clamp themselves: they forward *)
+(*     c + lo / c to the underlying array (a sub-box therefore shows the cells *)
+(*     of the underlying array around its clip box, and the clamping of the    *)
+(*     ActualArray3D at the bottom applies);                                   *)
+(*   - MultiSliceArray3D clamps z itself to the slice range 0..|S|-1 and       *)
+(*     forwards (x, y, 0) to the chosen slice;                                 *)
+(*   - IndexShiftedArray3D wraps: it forwards (c + size + s) mod size, which   *)
+(*     is what C++ % computes as long as c + size + s >= 0; below that C++ %   *)
+(*     is negative and the result is left UNCONSTRAINED here (DefinedE false), *)
+(*     as are coordinates so large that c + size + s overflows an int.         *)
 EXTENDS IndexMaps
 
 SetMin(S) == CHOOSE x \in S : \A y \in S : x <= y
@@ -113,4 +124,88 @@ LawClamp(A) ==
      /\ \A e \in Coords3(d) : \A i \in 1..3 :
            (IF c[i] > ClampC(c, d)[i] THEN c[i] - ClampC(c, d)[i] ELSE ClampC(c, d)[i] - c[i])
              <= (IF c[i] > e[i] THEN c[i] - e[i] ELSE e[i] - c[i])
+
+-------------------------------------------------------------------------------
+\* Adaptor expressions and get() at ARBITRARY coordinates.
+\* An expression is a tree [k |-> kind, ..., of |-> subtree(s)]:
+\*   [k |-> "actual", d, mem, ...]    an ActualArray3D of size d whose memory holds mem
+\*   [k |-> "shift", s, of]   [k |-> "sub", lo, hi, of]   [k |-> "acc", t, of]   [k |-> "slices", of |-> <<e1, ..., en>>]
+ShiftE(s, e)      == [k |-> "shift", s |-> s, of |-> e]
+SubE(lo, hi, e)   == [k |-> "sub", lo |-> lo, hi |-> hi, of |-> e]
+AccE(t, e)        == [k |-> "acc", t |-> t, of |-> e]
+SlicesE(es)       == [k |-> "slices", of |-> es]
+LeafArr(l)        == [size |-> l.d, val |-> l.mem]
+
+RECURSIVE SizeE(_)
+SizeE(e) == CASE e.k = "actual" -> e.d
+              [] e.k = "shift"  -> SizeE(e.of)
+              [] e.k = "sub"    -> Minus(e.hi, e.lo)
+              [] e.k = "acc"    -> SizeE(e.of)
+              [] e.k = "slices" -> <<SizeE(e.of[1])[1], SizeE(e.of[1])[2], Len(e.of)>>
+
+\* the coordinate a shifted array hands to its underlying array (before the modulo)
+ShiftArg(e, c)  == Plus(Plus(c, SizeE(e.of)), e.s)
+NonNeg(v)       == \A i \in 1..3 : v[i] >= 0
+SliceIndex(e, c) == Clamp1(c[3], 0, Len(e.of) - 1) + 1
+
+\* is get(c) of the expression given a meaning by the code's definitions (see the module comment)?
+RECURSIVE DefinedE(_, _)
+DefinedE(e, c) == CASE e.k = "actual" -> TRUE
+                    [] e.k = "shift"  -> NonNeg(ShiftArg(e, c)) /\ DefinedE(e.of, ModC(ShiftArg(e, c), SizeE(e.of)))
+                    [] e.k = "sub"    -> DefinedE(e.of, Plus(c, e.lo))
+                    [] e.k = "acc"    -> DefinedE(e.of, c)
+                    [] e.k = "slices" -> DefinedE(e.of[SliceIndex(e, c)], <<c[1], c[2], 0>>)
+
+\* get(c) for any coordinate with DefinedE(e, c): the value of the underlying cell the definitions name
+RECURSIVE GetE(_, _)
+GetE(e, c) == CASE e.k = "actual" -> ActualGet(LeafArr(e), c)
+                [] e.k = "shift"  -> GetE(e.of, ModC(ShiftArg(e, c), SizeE(e.of)))
+                [] e.k = "sub"    -> GetE(e.of, Plus(c, e.lo))
+                [] e.k = "acc"    -> GetE(e.of, c)
+                [] e.k = "slices" -> GetE(e.of[SliceIndex(e, c)], <<c[1], c[2], 0>>)
+
+\* may coordinates near +-2^31 be probed?  Only where no adaptor does arithmetic on them
+RECURSIVE NoArithmeticE(_)
+NoArithmeticE(e) == CASE e.k = "actual" -> TRUE
+                      [] e.k = "shift"  -> FALSE
+                      [] e.k = "sub"    -> FALSE
+                      [] e.k = "acc"    -> NoArithmeticE(e.of)
+                      [] e.k = "slices" -> \A i \in 1..Len(e.of) : NoArithmeticE(e.of[i])
+
+\* the table of an expression (get at every coordinate inside its size, flattened order)
+TableE(e) == View(SizeE(e), LAMBDA c : GetE(e, c))
+
+\* coordinates around the size: -m .. size-1+m per axis
+Around(d, m) == ((-m)..(d[1] - 1 + m)) \X ((-m)..(d[2] - 1 + m)) \X ((-m)..(d[3] - 1 + m))
+\* the same coordinates as a sequence (flattened order of the enlarged box)
+AroundSeq(d, m) == LET dd == <<d[1] + 2 * m, d[2] + 2 * m, d[3] + 2 * m>>
+                   IN [k \in 1..Total3(dd) |-> Minus(CoordsOf(k - 1, dd), <<m, m, m>>)]
+\* getValueRange(lo, hi) of an expression over a non-empty region all of whose cells are defined
+RegionDefinedE(e, lo, hi) == \A c \in Region(lo, hi) : DefinedE(e, c)
+RangeE(e, lo, hi) == LET V == {GetE(e, c) : c \in Region(lo, hi)} IN [lo |-> SetMin(V), hi |-> SetMax(V)]
+
+\* Laws that tie the out-of-extent behaviour of the adaptors to the clamping of the array below
+\* (checked in Array3DLaws for every reachable array state; l is the state's array as a leaf)
+ArrLeaf(A) == [k |-> "actual", d |-> A.size, mem |-> A.val]
+LawOutside(A) ==
+  LET l == ArrLeaf(A)  d == A.size  W == Around(d, 2) IN
+  \* an accessor, the full sub-box and the MultiSlice of all planes behave like the array itself EVERYWHERE
+  /\ \A c \in W : /\ GetE(AccE("i32", l), c) = ActualGet(A, c)
+                   /\ GetE(SubE(<<0, 0, 0>>, d, l), c) = ActualGet(A, c)
+                   /\ GetE(SlicesE([p \in 1..d[3] |-> SubE(<<0, 0, p - 1>>, <<d[1], d[2], p>>, l)]), c) = ActualGet(A, c)
+  \* a sub-box forwards: outside its own size it shows the neighbouring cells of the array
+  /\ \A b \in Boxes(d) : \A c \in Around(Minus(b[2], b[1]), 1) :
+        GetE(SubE(b[1], b[2], l), c) = ActualGet(A, Plus(c, b[1]))
+  \* a MultiSlice of one plane repeated: z is irrelevant, below 0 it is the FIRST slice, above the LAST
+  /\ d[3] >= 2 =>
+        LET e == SlicesE(<<SubE(<<0, 0, 0>>, <<d[1], d[2], 1>>, l), SubE(<<0, 0, d[3] - 1>>, <<d[1], d[2], d[3]>>, l)>>) IN
+        \A c \in Around(<<d[1], d[2], 2>>, 2) :
+           GetE(e, c) = ActualGet(A, <<c[1], c[2], IF c[3] <= 0 THEN 0 ELSE d[3] - 1>>)
+  \* a shift wraps whatever coordinate it is given (where the C++ remainder is a modulo)
+  /\ \A s \in {<<0, 0, 0>>, <<1, 0, 1>>, <<-1, -1, 0>>} : \A c \in W :
+        DefinedE(ShiftE(s, l), c) => /\ GetE(ShiftE(s, l), c) = Cell(A, ModC(Plus(c, s), d))
+                                     /\ GetE(ShiftE(s, l), c) = GetE(ShiftE(s, l), ModC(c, d))
+  \* inside the size the general definition is the table definition
+  /\ \A s \in Shifts(d, 1) : TableE(ShiftE(s, l)) = ShiftView(A, s)
+  /\ \A b \in Boxes(d) : TableE(SubE(b[1], b[2], l)) = SubView(A, b[1], b[2])
 ===============================================================================
